@@ -1384,11 +1384,12 @@ theorem local_readModule : Local readModule := fun _ _ _ _ h hx => readModule_ag
 /-- children `xs` decoded from `gc` to `g3` are added to collection `s` of the node `p` under
 construction (`Elem … g gc p` is the state of the construction so far) -/
 theorem phase_link {ir : Nat} {env env' : Env} {g gc g3 : G} {p : Nat} {s : Slot} {xs : List Nat}
-    (el : Elem ir env g gc p) (hk : gc.kind p ≠ .ir) (hkids : gc.kids p s = [])
+    (el : Elem ir env g gc p) (hk : gc.kind p ≠ .ir)
     (els : Elems ir env' gc g3 xs) (hext : EnvExt env env') :
     ∃ g4, foldE (fun g x => setAdd g p s x) xs g3 = .ok g4 ∧ Elem ir env' g g4 p ∧
       g4.uuid p = gc.uuid p ∧ g4.kind p = gc.kind p ∧
-      (∀ {β : Type} (rd : G → Nat → β), Local rd → (g4.kids p s).map (rd g4) = xs.map (rd g3)) ∧
+      (∀ {β : Type} (rd : G → Nat → β), Local rd →
+        (g4.kids p s).map (rd g4) = (gc.kids p s).map (rd gc) ++ xs.map (rd g3)) ∧
       (∀ {β : Type} (rd : G → Nat → β), Local rd → ∀ s0, s0 ≠ s →
         (g4.kids p s0).map (rd g4) = (gc.kids p s0).map (rd gc)) := by
   have hpn : p < gc.n := by rw [el.v_eq]; exact el.lt
@@ -1399,7 +1400,10 @@ theorem phase_link {ir : Nat} {env env' : Env} {g gc g3 : G} {p : Nat} {s : Slot
     (fun x hx => by
       obtain ⟨m1, m2, m3⟩ := hxs x hx
       refine ⟨m3, by omega, ?_⟩
-      rw [kd3, hkids]; simp) els.nodup
+      rw [kd3]
+      intro hm
+      have := el.wf.kids p s x hm
+      omega) els.nodup
   have hpx : p ∉ xs := fun hm => by have := (hxs p hm).1; omega
   -- owning collections lead upwards, in `g3`
   have hup3 : ∀ y, p + 1 ≤ y → y < g3.n → ∀ s' c, c ∈ g3.kids y s' → y < c := by
@@ -1409,6 +1413,13 @@ theorem phase_link {ir : Nat} {env env' : Env} {g gc g3 : G} {p : Nat} {s : Slot
       exact el.up y (by omega) hy s' c hc
     · exact els.up y (by omega) h2 s' c hc
   have hag : Agree (fun y => p + 1 ≤ y ∧ y < g3.n) g3 g4 := Agree.of_attached els.wf a4 (Nat.lt_succ_self _) hup3
+  -- the children `p` had before are read as before
+  have hold : ∀ {β : Type} (rd : G → Nat → β), Local rd → ∀ s0 x, x ∈ gc.kids p s0 → rd g4 x = rd gc x := by
+    intro β rd hrd s0 x hx
+    have hx1 : p < x := el.up p (by omega) hpn s0 x hx
+    have hx2 : x < gc.n := el.wf.kids p s0 x hx
+    rw [hrd _ g3 g4 x hag ⟨by omega, Nat.lt_of_lt_of_le hx2 els.le⟩]
+    exact hrd.same el.wf els.same hx2
   refine ⟨g4, e4, ?_, by rw [a4.uuid, u3], by rw [a4.kind, k3], ?_, ?_⟩
   · refine ⟨els.inv.of_eq a4.cache (by rw [a4.n]; exact Nat.le_refl _) (fun y _ => ⟨by rw [a4.kind], by rw [a4.uuid]⟩),
       els.wf.attached a4 (fun x hx => (hxs x hx).2.1), hpg, ?_, ?_, ?_, ?_, ?_⟩
@@ -1429,27 +1440,84 @@ theorem phase_link {ir : Nat} {env env' : Env} {g gc g3 : G} {p : Nat} {s : Slot
       · subst hy
         by_cases hs : s' = s
         · subst hs
-          rw [if_pos ⟨rfl, rfl⟩, kd3, hkids] at hc
-          simp only [List.nil_append] at hc
-          have := (hxs c hc).1; omega
+          rw [if_pos ⟨rfl, rfl⟩, kd3] at hc
+          rcases List.mem_append.1 hc with hc | hc
+          · exact el.up y h1 hpn s' c hc
+          · have := (hxs c hc).1; omega
         · rw [if_neg (fun hh => hs hh.2), kd3] at hc
           exact el.up y h1 hpn s' c hc
       · rw [if_neg (fun hh => hy hh.1)] at hc
         exact hup3 y (by omega) h2 s' c hc
   · intro β rd hrd
-    rw [a4.kids, if_pos ⟨rfl, rfl⟩, kd3, hkids, List.nil_append]
-    apply List.map_congr_left
-    intro x hx
-    obtain ⟨m1, m2, _⟩ := hxs x hx
-    exact hrd _ g3 g4 x hag ⟨by omega, m2⟩
+    rw [a4.kids, if_pos ⟨rfl, rfl⟩, kd3, List.map_append]
+    congr 1
+    · apply List.map_congr_left
+      intro x hx
+      exact hold rd hrd s x hx
+    · apply List.map_congr_left
+      intro x hx
+      obtain ⟨m1, m2, _⟩ := hxs x hx
+      exact hrd _ g3 g4 x hag ⟨by omega, m2⟩
   · intro β rd hrd s0 hs0
     rw [a4.kids, if_neg (fun hh => hs0 hh.2), kd3]
     apply List.map_congr_left
     intro x hx
-    have hx1 : p < x := el.up p (by omega) hpn s0 x hx
-    have hx2 : x < gc.n := el.wf.kids p s0 x hx
-    rw [hrd _ g3 g4 x hag ⟨by omega, Nat.lt_of_lt_of_le hx2 els.le⟩]
-    exact hrd.same el.wf els.same hx2
+    exact hold rd hrd s0 x hx
+
+theorem elems_single {ir : Nat} {env' : Env} {g g' : G} {v : Nat} (el : Elem ir env' g g' v) :
+    Elems ir env' g g' [v] := by
+  refine ⟨el.inv, el.wf, Nat.le_of_lt el.lt, el.same, ?_, by simp, el.nodes, el.up⟩
+  intro w hw
+  simp only [List.mem_singleton] at hw
+  subst hw
+  exact ⟨by rw [el.v_eq]; exact Nat.le_refl _, by rw [el.v_eq]; exact el.lt, el.par⟩
+
+/-- `p.<coll>.update(dec(c) for c in children)` (`decodeAttach`) for the node `p` under construction:
+every child is decoded (fresh, detached) and added at once; nothing raises, the children are appended
+in message order -/
+theorem attach_link {α β : Type} {ir : Nat} {f : G → Nat → β → Except LErr (G × Nat)}
+    {E : Env → α → Env → Prop} {S : α → β → Prop} {rd : G → Nat → β} {g : G} {p : Nat} {s : Slot}
+    (hE : ∀ env a env', E env a env' → EnvExt env env') (hrd : Local rd)
+    (hf : ∀ env a env' b g, E env a env' → S a b → Inv ir env g → WF g →
+      ∃ g' v, f g ir b = .ok (g', v) ∧ Elem ir env' g g' v ∧ rd g' v = b) :
+    ∀ (as : List α) (bs : List β) (env env' : Env) (gc : G), Chain E env as env' → All2 S as bs →
+      Elem ir env g gc p → gc.kind p ≠ .ir →
+      ∃ g4, decodeAttach f ir p s gc bs = .ok g4 ∧ Elem ir env' g g4 p ∧
+        g4.uuid p = gc.uuid p ∧ g4.kind p = gc.kind p ∧
+        (g4.kids p s).map (rd g4) = (gc.kids p s).map (rd gc) ++ bs ∧
+        (∀ {γ : Type} (rd' : G → Nat → γ), Local rd' → ∀ s0, s0 ≠ s →
+          (g4.kids p s0).map (rd' g4) = (gc.kids p s0).map (rd' gc)) := by
+  intro as
+  induction as with
+  | nil =>
+    intro bs env env' gc hch hS el hk
+    cases hS
+    cases hch
+    exact ⟨gc, rfl, el, rfl, rfl, by simp, fun _ _ _ _ => rfl⟩
+  | cons a as ih =>
+    intro bs env env' gc hch hS el hk
+    cases hS with
+    | cons hab hrest =>
+      rename_i b bs'
+      cases hch with
+      | cons h1 hch' =>
+        rename_i env1
+        obtain ⟨g1, v, e1, el1, r1⟩ := hf env a env1 b gc h1 hab el.inv el.wf
+        obtain ⟨g2, e2, el2, u2, k2, new2, keep2⟩ := phase_link (s := s) el hk (elems_single el1) (hE _ _ _ h1)
+        obtain ⟨gm, em, em2⟩ := foldE_cons_ok e2
+        cases em2
+        obtain ⟨g4, e4, el4, u4, k4, new4, keep4⟩ := ih bs' env1 env' g2 hch' hrest el2 (by rw [k2]; exact hk)
+        refine ⟨g4, ?_, el4, u4.trans u2, k4.trans k2, ?_, ?_⟩
+        · simp only [decodeAttach]
+          rw [e1]
+          simp only []
+          rw [em]
+          simp only [liftE]
+          exact e4
+        · rw [new4, new2 rd hrd, List.map_cons, List.map_nil, r1, List.append_assoc]
+          rfl
+        · intro γ rd' hrd' s0 hs0
+          rw [keep4 rd' hrd' s0 hs0, keep2 rd' hrd' s0 hs0]
 
 theorem section_link {ir : Nat} (env : Env) (s : MSection) (env' : Env) (ss : SkSection) (g : G)
     (hE : ESection env s env') (hS : ∃ es, skSection s = some (ss, es)) (hI : Inv ir env g) (hW : WF g) :
@@ -1458,31 +1526,25 @@ theorem section_link {ir : Nat} (env : Env) (s : MSection) (env' : Env) (ss : Sk
   obtain ⟨es, hS⟩ := hS
   obtain ⟨xs', hxs', rfl, _⟩ := skSection_inv hS
   have reg := reg_elem (ir := ir) hI hW .section h16 hf
-  obtain ⟨g3, xs, e3, els, r3⟩ := list_link (ir := ir) (f := fun g b => Loader.decodeInterval g ir b)
-    (E := EInterval) (S := fun x sx => ∃ es, skInterval x = some (sx, es)) (rd := readInterval)
-    (fun _ _ _ h => h.ext) (fun g g' v hw hs hv => local_readInterval.same hw hs hv)
+  obtain ⟨g4, e4, el4, u4, _, new4, _⟩ := attach_link (ir := ir) (f := Loader.decodeInterval)
+    (E := EInterval) (S := fun x sx => ∃ es, skInterval x = some (sx, es)) (rd := readInterval) (s := .bis)
+    (fun _ _ _ h => h.ext) local_readInterval
     (fun env a env' b g h1 h2 h3 h4 => interval_link env a env' b g h1 h2 h3 h4)
     s.byteIntervals (xs'.map (·.1)) _ env' _ hch
-    (all2_map_right (allSome_map_all2 _ _ _ hxs') (fun a b hab => ⟨b.2, by rw [hab]⟩)) reg.inv reg.wf
-  obtain ⟨g4, e4, el4, u4, _, new4, _⟩ := phase_link (s := .bis) reg
+    (all2_map_right (allSome_map_all2 _ _ _ hxs') (fun a b hab => ⟨b.2, by rw [hab]⟩)) reg
     (by show (alloc g (kindOf .section) (natOfBytes s.uuid)).1.kind g.n ≠ .ir; simp [kindOf])
-    (by show (alloc g (kindOf .section) (natOfBytes s.uuid)).1.kids g.n .bis = []; simp) els
-    (hch.ext (fun _ _ _ h => h.ext))
   refine ⟨g4, g.n, ?_, el4, ?_⟩
   · unfold Loader.decodeSection
     rw [fromProto_miss _ (hI.dom s.uuid h16 hf)]
     simp only [Bool.not_true, Bool.false_eq_true, if_false]
-    rw [decodeIntervals_eq]
-    have e3' : decodeList (fun g x => Loader.decodeInterval g ir x)
+    have e4' : decodeAttach Loader.decodeInterval ir g.n Slot.bis
         (cacheSet (alloc g Kind.section (natOfBytes s.uuid)).1 ir (natOfBytes s.uuid) g.n) (xs'.map (·.1))
-        = .ok (g3, xs) := e3
-    rw [e3']
-    simp only []
-    rw [e4]
-    rfl
+        = .ok g4 := e4
+    rw [e4']
   · unfold readSection
-    rw [new4 readInterval local_readInterval, r3, u4]
-    show SkSection.mk ((alloc g (kindOf .section) (natOfBytes s.uuid)).1.uuid g.n) _ = _
+    rw [new4, u4]
+    show SkSection.mk ((alloc g (kindOf .section) (natOfBytes s.uuid)).1.uuid g.n)
+      (((alloc g (kindOf .section) (natOfBytes s.uuid)).1.kids g.n Slot.bis).map _ ++ _) = _
     simp
 
 /-- the state after a fresh symbol was decoded -/
@@ -1678,9 +1740,9 @@ theorem module_link {ir : Nat} (names : List String) (env : Env) (m : MModule) (
       = [] := by
     intro s; show (alloc g (kindOf .module) (natOfBytes m.uuid)).1.kids g.n s = _; simp
   -- proxies
-  obtain ⟨g3, ps, e3, els3, r3⟩ := list_link (ir := ir) (f := fun g b => Loader.decodeProxy g ir b)
-    (E := EProxy) (S := fun b p => p = natOfBytes b) (rd := fun g v => g.uuid v)
-    (fun _ _ _ h => h.ext) (fun g g' v hw hs hv => local_uuid.same hw hs hv)
+  obtain ⟨g4, e4, el4, u4, k4, new4, keep4⟩ := attach_link (ir := ir) (f := Loader.decodeProxy)
+    (E := EProxy) (S := fun b p => p = natOfBytes b) (rd := fun g v => g.uuid v) (s := .proxies)
+    (fun _ _ _ h => h.ext) local_uuid
     (fun env a env' b g h1 h2 h3 h4 => proxy_link env a env' b g h1 h2 h3 h4)
     m.proxies (m.proxies.map natOfBytes) _ env1 _ hpx
     (by
@@ -1688,22 +1750,19 @@ theorem module_link {ir : Nat} (names : List String) (env : Env) (m : MModule) (
         induction m.proxies with
         | nil => exact .nil
         | cons a l ih => exact .cons rfl ih
-      exact all2_map_right this (fun a b hab => by rw [hab])) reg.inv reg.wf
-  obtain ⟨g4, e4, el4, u4, k4, new4, keep4⟩ := phase_link (s := .proxies) reg (by rw [hk2]; decide) (hkids2 _) els3
-    (hpx.ext (fun _ _ _ h => h.ext))
+      exact all2_map_right this (fun a b hab => by rw [hab])) reg (by rw [hk2]; decide)
   -- sections
-  obtain ⟨g5, secs, e5, els5, r5⟩ := list_link (ir := ir) (f := fun g b => Loader.decodeSection g ir b)
-    (E := ESection) (S := fun s sx => ∃ es, skSection s = some (sx, es)) (rd := readSection)
-    (fun _ _ _ h => h.ext) (fun g g' v hw hs hv => local_readSection.same hw hs hv)
+  obtain ⟨g6, e6, el6, u6, k6, new6, keep6⟩ := attach_link (ir := ir) (f := Loader.decodeSection)
+    (E := ESection) (S := fun s sx => ∃ es, skSection s = some (sx, es)) (rd := readSection) (s := .secs)
+    (fun _ _ _ h => h.ext) local_readSection
     (fun env a env' b g h1 h2 h3 h4 => section_link env a env' b g h1 h2 h3 h4)
     m.sections (ss.map (·.1)) env1 env2 g4 hsec
-    (all2_map_right (allSome_map_all2 _ _ _ hss) (fun a b hab => ⟨b.2, by rw [hab]⟩)) el4.inv el4.wf
+    (all2_map_right (allSome_map_all2 _ _ _ hss) (fun a b hab => ⟨b.2, by rw [hab]⟩)) el4
+    (by rw [k4, hk2]; decide)
   have hkids4 : g4.kids g.n .secs = [] := by
     have := keep4 (fun g v => v) (fun _ _ _ _ _ _ => rfl) .secs (by decide)
     simp only [List.map_id'] at this
     rw [this, hkids2]
-  obtain ⟨g6, e6, el6, u6, k6, new6, keep6⟩ := phase_link (s := .secs) el4 (by rw [k4, hk2]; decide) hkids4 els5
-    (hsec.ext (fun _ _ _ h => h.ext))
   -- entry point
   have hent : (if m.entryPoint.isEmpty then none else some (natOfBytes m.entryPoint) : Option Nat) = none ∨
       ((if m.entryPoint.isEmpty then none else some (natOfBytes m.entryPoint) : Option Nat)
@@ -1721,18 +1780,16 @@ theorem module_link {ir : Nat} (names : List String) (env : Env) (m : MModule) (
       obtain ⟨n, c1, _, c3, _⟩ := el6.inv.leafs m.entryPoint .code he16 hef rfl
       simp only [refKind, c1, c3, kindOf, beq_self_eq_true, if_true]
   -- symbols
-  obtain ⟨g7, syms, e7, els7, r7⟩ := list_link (ir := ir) (f := fun g b => Loader.decodeSymbol g ir b)
-    (E := ESymbol) (S := fun y sy => skSymbol names y = some sy) (rd := readSymbol)
-    (fun _ _ _ h => h.ext) (fun g g' v hw hs hv => local_readSymbol.same hw hs hv)
+  obtain ⟨g8, e8, el8, u8, k8, new8, keep8⟩ := attach_link (ir := ir) (f := Loader.decodeSymbol)
+    (E := ESymbol) (S := fun y sy => skSymbol names y = some sy) (rd := readSymbol) (s := .syms)
+    (fun _ _ _ h => h.ext) local_readSymbol
     (fun env a env' b g h1 h2 h3 h4 => symbol_link names env a env' b g h1 h2 h3 h4)
-    m.symbols ys env2 env' g6 hsym (allSome_map_all2 _ _ _ hys) el6.inv el6.wf
+    m.symbols ys env2 env' g6 hsym (allSome_map_all2 _ _ _ hys) el6 (by rw [k6, k4, hk2]; decide)
   have hkids6 : g6.kids g.n .syms = [] := by
     have h6 := keep6 (fun g v => v) (fun _ _ _ _ _ _ => rfl) .syms (by decide)
     have h4 := keep4 (fun g v => v) (fun _ _ _ _ _ _ => rfl) .syms (by decide)
     simp only [List.map_id'] at h6 h4
     rw [h6, h4, hkids2]
-  obtain ⟨g8, e8, el8, u8, k8, new8, keep8⟩ := phase_link (s := .syms) el6 (by rw [k6, k4, hk2]; decide) hkids6 els7
-    (hsym.ext (fun _ _ _ h => h.ext))
   -- expression symbols
   have hchk : checkAll g8 ir (fun k => k == Kind.symbol) (ss.map (·.2)).flatten = .ok () := by
     apply checkAll_of
@@ -1744,22 +1801,15 @@ theorem module_link {ir : Nat} (names : List String) (env : Env) (m : MModule) (
   · unfold Loader.decodeModule
     rw [fromProto_miss _ (hI.dom m.uuid h16 hf)]
     simp only [Bool.not_true, Bool.false_eq_true, if_false]
-    rw [decodeProxies_eq]
-    have e3' : decodeList (fun g x => Loader.decodeProxy g ir x)
+    have e4' : decodeAttach Loader.decodeProxy ir g.n Slot.proxies
         (cacheSet (alloc g Kind.module (natOfBytes m.uuid)).1 ir (natOfBytes m.uuid) g.n) (m.proxies.map natOfBytes)
-        = .ok (g3, ps) := e3
-    rw [e3']
-    simp only []
-    rw [e4]
-    simp only [liftE]
-    rw [decodeSections_eq, e5]
+        = .ok g4 := e4
+    rw [e4']
     simp only []
     rw [e6]
-    simp only [liftE]
+    simp only []
     rcases hent with hent | ⟨hent, hrk⟩
     · rw [hent]
-      simp only []
-      rw [decodeSymbols_eq, e7]
       simp only []
       rw [e8]
       simp only []
@@ -1768,17 +1818,15 @@ theorem module_link {ir : Nat} (names : List String) (env : Env) (m : MModule) (
       simp only []
       rw [hrk]
       simp only []
-      rw [decodeSymbols_eq, e7]
-      simp only []
       rw [e8]
       simp only []
       rw [hchk]
   · unfold readModule skShape
     simp only []
-    rw [new8 readSymbol local_readSymbol, r7]
-    rw [keep8 readSection local_readSection .secs (by decide), new6 readSection local_readSection, r5]
+    rw [new8, hkids6, List.map_nil, List.nil_append]
+    rw [keep8 readSection local_readSection .secs (by decide), new6, hkids4, List.map_nil, List.nil_append]
     rw [keep8 (fun g v => g.uuid v) local_uuid .proxies (by decide),
-      keep6 (fun g v => g.uuid v) local_uuid .proxies (by decide), new4 (fun g v => g.uuid v) local_uuid, r3]
+      keep6 (fun g v => g.uuid v) local_uuid .proxies (by decide), new4, hkids2, List.map_nil, List.nil_append]
     rw [u8, u6, u4, hu2]
 
 /-! ### the module list and the whole load -/
